@@ -171,6 +171,16 @@ pub fn run(seed: u64, tier: &str, out: &mut Out) {
             prev = Some((d, value));
         }
         out.emit(&format!("FMT hdur {d}"), &format!("{got} ORACLE {v}"));
-        out.emit(&format!("FMT hdura {d}"), &format!("{gota} ORACLE ok"));
+        // the compact form (`{:#}`: `42s`, `2m`) follows the same rule: same count, the unit as one letter
+        let va = {
+            let digits: String = gota.chars().take_while(|c| c.is_ascii_digit()).collect();
+            let letter = &gota[digits.len()..];
+            let na: u128 = digits.parse().unwrap_or(u128::MAX);
+            let want_letter = match name.as_str() { "year" => "y", "week" => "w", "day" => "d", "hour" => "h", "minute" => "m", "second" => "s", _ => "?" };
+            if v != "ok" { "ok".to_string() }   // the long form is already reported
+            else if letter != want_letter || na != n { format!("FAIL hdur-compact {d} ns: long form {got:?}, compact form {gota:?}") }
+            else { "ok".to_string() }
+        };
+        out.emit(&format!("FMT hdura {d}"), &format!("{gota} ORACLE {va}"));
     }
 }
